@@ -183,4 +183,13 @@ CHECKS['C18'] = {
             'the id, the server stays healthy and no process started during the case survives deleting everything.',
     'note': 'Each case runs on the shard server (restarted when a case breaks it).',
 }
+CHECKS['C09'] = {
+    'engine': 'POOLSIM', 'level': 'exploration', 'design_ref': 'DESIGN.md 3.2, 3.5, 4 (C09)',
+    'technique': 'property-based testing over pool histories: tape-scheduled simulated pools (runs / restart_workers / kills / add_worker between runs) with a per-run multiset and liveness oracle, plus generated histories on real mixed pools with a process-census oracle at pool exit',
+    'text': 'Bookkeeping part: thousands of multi-run histories on simulated workers check that each run returns exactly its own inputs, that PoolError needs all '
+            'workers dead also after restarts, that known-dead workers get no work and restarted ones do. OS part: real thread/process/remote pools with SIGKILLed, '
+            'stuck, attached and failing-to-register workers are left normally, by exception, close() or terminate() under varied close_timeout/force, after which '
+            'no process of the pool may survive (unless forced termination was disabled and a worker is stuck).',
+    'note': 'The OS part is small in the quick tier (about 220 histories); a stuck worker disables later run/restart steps (it violates run()\'s premise).',
+}
 NOT_APPLICABLE = {}
